@@ -2,6 +2,7 @@
 
 from __future__ import annotations
 
+import math
 from abc import ABCMeta
 from abc import abstractmethod
 from dataclasses import dataclass
@@ -162,6 +163,10 @@ class KAISAAssignment(WorkAssignment):
         if 0 > world_size:
             raise ValueError('world_size must be > 0')
         grad_workers = max(1, world_size * grad_worker_fraction)
+        # k / world_size is not always exactly representable so
+        # world_size * (k / world_size) can be off from k by a rounding error
+        if math.isclose(grad_workers, round(grad_workers), rel_tol=1e-9):
+            grad_workers = round(grad_workers)
         if grad_workers != int(grad_workers):
             raise ValueError(
                 'world_size*grad_worker_fraction must produce an integer '
